@@ -450,7 +450,9 @@ def check_version_choice(s, parts, args, out):
             out.append(('C04', 'version-not-as-requested', {'requested': req_version, 'got': s.version}))
         return
     cands = segmentations(parts, eci)
-    if segs not in cands:
+    # the segmentation found in the symbol is one more admissible way to write the content - but only if it
+    # really carries the content (a symbol that lost a part must not justify its own smaller version)
+    if segs not in cands and (not cands or s.payload == expected_payload(parts)):
         cands = cands + [segs]
     fits = [first_fit(c, micro, eci, error, sa) for c in cands]
     fits = [f for f in fits if f is not None]
